@@ -17,6 +17,15 @@ CHECKS = {
  'C04': ('segmentation', 'bounded-exhaustive input enumeration; builder partition compared with the greedy partition of an independent exact stabbing-line oracle',
          'Same runs as C03 (integer keys): for every builder call, including every chunk and every upper-level call made while constructing PGMIndex objects, the partition into segments must equal the greedy maximal partition computed by an exact rational feasibility oracle (pairwise slope bounds, cross-checked between a naive and a hull-pruned implementation); hence minimal count for sequential builds, at most c-1 extra for c chunks, segment starts more than 2*epsilon ranks apart, segments_count() <= floor(n/(2eps+1))+c+1.',
          'As C03; greedy with an exact oracle is optimal because feasibility is closed under taking subsets.', '4/C04'),
+ 'C05': ('dynamic', 'explicit-state breadth-first search over operation histories on the real DynamicPGMIndex (object copied per transition, canonical-state deduplication), std::map reference model',
+         'All histories of insert_or_assign/erase over 4-7 colliding keys and 2 values up to the stated depth, from empty, from every small bulk-load, from deep bulk-loads and from non-initial states reached by fixed insert prefixes, for tiny (base, buffer_level, index_level) configurations that cascade through 3-4 levels and give small levels a PGM-index, with arithmetic, pointer and std::string values: in every distinct state find/count/lower_bound agree with std::map for every alphabet key and its neighbours.',
+         'Canonical form = used_levels + per-level (key,value|tombstone) lists; equal forms have equal futures (per-level indexes are a function of the level contents, which C15 checks). Depth/key-set bounds as reported in the evidence.', '4/C05'),
+ 'C06': ('dynamic', 'explicit-state breadth-first search over operation histories on the real DynamicPGMIndex, std::map reference model',
+         'Same state space as C05; in every distinct state: iteration from begin() and from lower_bound(q) for every q to end() (strictly increasing live keys with current values, terminates), range(lo,hi) for every lo<=hi of the query alphabet equals the map slice exactly, size(), empty().',
+         'As C05.', '4/C06'),
+ 'C15': ('dynamic', 'explicit-state breadth-first search over operation histories on the real DynamicPGMIndex, invariant evaluated in every state',
+         'Same state space as C05; in every distinct state the LSM invariants are evaluated through the private members: levels strictly sorted, buffer and level capacities, no data beyond used_levels, every non-empty level at or above the index level owns an index with n == level size, first_key == first item and answering the search contract for all level keys and all alphabet queries, emptied levels own a reset index.',
+         'Private members read with -fno-access-control (no hook needed).', '4/C15'),
  'C07': ('search', 'bounded-exhaustive input x query enumeration with routing hook H3; brute-force rightmost-segment oracle per level',
          'For every explored index with EpsilonRecursive>0 and every query, the per-level routing record (predicted position, scan start, chosen segment) is compared with a brute-force scan of the level: chosen is the rightmost segment <= key, within EpsilonRecursive+1 of the prediction, at most 2R+3 segments inspected; level sizes obey floor(m/(2R+1))+c(+1 closing segment).',
          'Hook H3 (PGM_INDEX_VERIF_ROUTE) in segment_for_key; level-size bound allows +1 for the closing segment appended by build().', '4/C07'),
@@ -70,6 +79,8 @@ def main():
         'engines': [
             {'name': 'search', 'path': 'engines/search_main.cpp', 'serves_properties': ['C01', 'C02', 'C07', 'C08', 'C09', 'C10'],
              'kind_free_text': 'bounded-exhaustive enumeration of sorted inputs x queries on the real static indexes, forked workers with crash capture'},
+            {'name': 'dynamic', 'path': 'engines/dynamic.cpp', 'serves_properties': ['C05', 'C06', 'C15'],
+             'kind_free_text': 'explicit-state BFS over update histories on the real DynamicPGMIndex with canonical-state hashing and std::map reference'},
             {'name': 'segmentation', 'path': 'engines/segmentation.cpp', 'serves_properties': ['C03', 'C04'],
              'kind_free_text': 'bounded-exhaustive enumeration of inputs to the piecewise-linear builder with hook H1 and exact rational oracles'},
         ],
